@@ -43,7 +43,8 @@ def nameplate_completion_cases(wd, quick):
         return "<<" + ", ".join('"%s"' % ch for ch in s_) + ">>"
     with open(wd.file("MC_NPC.tla"), "w") as f:
         f.write("---- MODULE MC_NPC ----\nEXTENDS NameplateInput\nc_U == {%s}\nc_P == {%s}\n"
-                "ASSUME OfferedAreListed\nASSUME ListedAreOffered\nASSUME StaleNeverOffered\nASSUME ReportCases\n====\n"
+                "ASSUME OfferedAreListed\nASSUME ListedAreOffered\nASSUME StaleNeverOffered\nASSUME ReportCases\n"
+                "ASSUME AcceptedIsTyped\nASSUME ClaimIsFinal\nASSUME ReportSessions\n====\n"
                 % (", ".join(seq(u) for u in uni), ", ".join(seq(p_) for p_ in ["", "1", "12", "3", "4"])))
     with open(wd.file("MC_NPC.cfg"), "w") as f:
         f.write("SPECIFICATION Spec\nCONSTANTS\n  %s\nCHECK_DEADLOCK FALSE\n" % consts)
@@ -54,7 +55,50 @@ def nameplate_completion_cases(wd, quick):
     for (_, h, p_, comps) in tlc.printed_tuples(r.stdout, "NPC"):
         hist = tuple(frozenset("".join(n) for n in listing) for listing in h)
         cases.setdefault(hist, {})["".join(p_)] = {"".join(c) for c in comps}
-    return r, cases
+    sessions = []
+    for (_, sess, outcome) in tlc.printed_tuples(r.stdout, "RLC"):
+        evs = [{"t": e["t"], "np": "".join(e["np"]), "dash": bool(e.get("dash", True))} for e in sess]
+        sessions.append((evs, [outcome[0], "".join(outcome[1]) if outcome[0] == "code" else outcome[1]]))
+    return r, cases, sessions
+
+
+def run_readline_session(events, words="purple-sausages"):
+    """one session at the readline prompt on a real wormhole doing input_code(): the real CodeInputter (its blocking call into
+    the reactor thread replaced by a direct call), Tab = _commit_and_build_completions(line), Return = finish(line).
+    -> ["refused", k] or ["code", nameplate of the code the wormhole ended up with] (or ["error", repr])"""
+    from ..mbworld import MailboxWorld
+    from wormhole._rlcompleter import CodeInputter
+    from wormhole.errors import AlreadyInputNameplateError
+    w = MailboxWorld(seed=0, clients=(("A", "deferred"),))
+    w.apply({"a": "ConnOpen", "c": "A"})
+    w.apply({"a": "AppInput", "c": "A"})
+    cl = w.clients["A"]
+    ci = CodeInputter(cl.helper, None)
+    ci.bcft = lambda f, *a, **kw: f(*a, **kw)
+    out = None
+    try:
+        for k, e in enumerate(events, start=1):
+            line = e["np"] + ("-" + words if e["dash"] else "") if e["t"] == "tab" else e["np"] + "-" + words
+            try:
+                if e["t"] == "tab":
+                    cl.world._call_entry(cl, "tab", ci._commit_and_build_completions, line, api=True)
+                else:
+                    cl.world._call_entry(cl, "return", ci.finish, line, api=True)
+            except AlreadyInputNameplateError:
+                out = ["refused", k]
+                break
+            w.drain()
+        if out is None:
+            w.drain()
+            codes = [v for kk, v in cl.events if kk == "code"]
+            out = ["code", codes[0].split("-")[0]] if codes else ["error", "no code although Return was accepted"]
+            if codes and codes[0] != events[-1]["np"] + "-" + words:
+                out = ["code-differs", codes[0]]
+    except Exception as ex:
+        out = ["error", repr(ex)[:120]]
+    internal = ["%s:%s:%r" % x for x in w.internal]
+    w.shutdown()
+    return out, internal
 
 
 def run_nameplate_history(hist, prefixes):
@@ -172,7 +216,20 @@ def run(prop, tier):
                 break
         cov["samples"].append({"case": "choose_words", "bytes": [7, 200, 31], "expected": expect([7, 200, 31])})
         # ---------------- 2d. nameplate completion over histories of server listings (NameplateInput.tla)
-        rn, npcases = nameplate_completion_cases(wd, quick)
+        rn, npcases, sessions = nameplate_completion_cases(wd, quick)
+        cov_sessions = 0
+        for evs, expected in sessions:
+            got, internal = run_readline_session(evs)
+            evaluations += 1
+            cov_sessions += 1
+            distinct.add(("rlc", json.dumps(evs)))
+            if got != expected or internal:
+                v.violation({"clause": "readline-commitment", "events": len(evs)},
+                            "readline session %s: spec (NameplateInput.Outcome) %s, real CodeInputter + wormhole %s %s" % (
+                                json.dumps(evs), expected, got, internal[:2]),
+                            {"call": "readline-session", "events": evs, "expected": expected})
+                break
+        cov["readline_sessions"] = cov_sessions
         states += rn.distinct
         transitions += rn.generated
         cov["tlc_configs"]["NameplateInput"] = {"distinct_states": rn.distinct, "wall_s": round(rn.wall, 1), "histories": len(npcases),
